@@ -440,6 +440,9 @@ func genConv(w *bufio.Writer, r *rng, id int) {
 		f.Form, f.OForm, f.HasErr, f.Script, f.Once = "pos", "pos", false, "ok", false
 		sc.Opts = append(sc.Opts, optSpecC{Kind: "conv", Fids: []int{f.ID}})
 	}
+	if r.chance(1, 4) && sc.buildAll() == nil {
+		sc.gensify(r) // some converters come from converter generators
+	}
 	if err := sc.buildAll(); err != nil {
 		fmt.Fprintf(w, "scn conv %d builderr\nbuilderr %s\nend\n", id, strings.ReplaceAll(err.Error(), "\n", " "))
 		return
